@@ -98,8 +98,11 @@ def run_function(world: World, c: Contract) -> tuple[Exec, FnResult]:
         params = make_params(ex, c, node)
         env.vars.update(params)
         ex.cur_params = params
-        ex.frames.append({"fid": c.fid, "loops": S.loops_of(node), "loop_specs": c.loops, "fn_node": node, "contract": c, "unroll_while": c.unroll_while})
+        ex.frames.append({"fid": c.fid, "loops": S.loops_of(node), "loop_specs": c.loops, "fn_node": node, "contract": c, "unroll_while": c.unroll_while, "local_types": c.local_types})
+        if c.ghost_init is not None:
+            c.ghost_init(ex, env)
         cx = Ctx(ex, params)
+        cx.env = env
         for nm, f in c.requires:
             ex.assume(f(cx))
         if c.kind == "setup":
@@ -137,6 +140,8 @@ def run_function(world: World, c: Contract) -> tuple[Exec, FnResult]:
         explore(ex, runner)
     except OutOfSubset as e:
         res.error = f"out-of-subset: {e}"
+        if os.environ.get("PYVC_DEBUG"):
+            traceback.print_exc()
     except S.ToolError:
         raise
     except PyRaise as e:
